@@ -109,7 +109,30 @@ Arguments kroute_is_ours : simpl never.
 (* ---------- netlink plumbing never touches the state proper or the kernel ---------- *)
 Lemma nl_call_frame : forall p op w f w', nl_call p op w = (f, w') -> w_st w' = w_st w /\ w_env w' = w_env w.
 Proof. unfold nl_call. intros. inversion H. simpl. auto. Qed.
+
+(* plans without "partial dump, then somebody else changes the kernel, then EINTR" items *)
+Definition plan_simple (p : plan) : bool :=
+  forallb (fun e : nlop * N * fkind => match snd e with FEintrP _ _ => false | _ => true end) p.
+
+Lemma nl_call_simple : forall p op w ks m w', plan_simple p = true -> nl_call p op w = (Some (FEintrP ks m), w') -> False.
+Proof.
+  unfold nl_call, planned. intros p op w ks m w' PS H. injection H as H _.
+  match type of H with (match ?L with _ => _ end) = _ => destruct L as [|e l] eqn:EL end; [discriminate|].
+  injection H as H.
+  assert (In e p) as HI.
+  { assert (In e (e :: l)) as X by (left; auto). rewrite <- EL in X. apply filter_In in X. tauto. }
+  unfold plan_simple in PS. rewrite forallb_forall in PS. specialize (PS e HI). rewrite H in PS. discriminate.
+Qed.
 Opaque nl_call.
+
+Lemma full_list_simple : forall cfg p now, plan_simple p = true ->
+  forall fuel w, full_list cfg p now fuel w = list_retry p NRouteListAll fuel w.
+Proof.
+  intros cfg p now PS. induction fuel as [|fuel IH]; intros w; cbn [full_list list_retry]; auto.
+  destruct (nl_call p NRouteListAll w) as [f w1] eqn:E.
+  destruct f as [[| | |ks m]|]; auto.
+  exfalso. eapply nl_call_simple; eauto.
+Qed.
 
 Lemma handle_frame : forall p w b w', handle p w = (b, w') -> w_st w' = w_st w /\ w_env w' = w_env w.
 Proof.
@@ -127,9 +150,10 @@ Proof.
   induction fuel; simpl; intros.
   - inversion H. auto.
   - destruct (nl_call p op w) as [f w1] eqn:E. apply nl_call_frame in E. destruct E as [E1 E2].
-    destruct f as [[| |]|].
+    destruct f as [[| | |ks m]|].
     + inversion H; subst; split; assumption.
     + apply IHfuel in H. destruct H as [H1 H2]. rewrite H1, H2. split; assumption.
+    + inversion H; subst; split; assumption.
     + inversion H; subst; split; assumption.
     + inversion H; subst; split; assumption.
 Qed.
@@ -143,7 +167,7 @@ Proof.
   2:{ inversion H; subst; auto. }
   destruct (nl_call p (NLinkByName name) w1) as [f w2] eqn:E2. apply nl_call_frame in E2. destruct E2 as [B1 B2].
   assert (w_st w2 = w_st w /\ w_env w2 = w_env w) as G by (rewrite B1, B2; auto).
-  destruct f as [[| |]|]; try (inversion H; subst; exact G).
+  destruct f as [[| | |ks m]|]; try (inversion H; subst; exact G).
   destruct (lookup String.eqb (e_links (w_env w2)) name) as [l|]; [destruct (l_up l)|]; inversion H; subst; exact G.
 Qed.
 Opaque filter_error.
@@ -201,7 +225,8 @@ Proof.
   { intros fe w2 E. destruct fk.
     - symmetry in E. apply filter_error_frame in E. destruct E as [E1 E2]. rewrite E1, E2. auto.
     - symmetry in E. apply filter_error_frame in E. destruct E as [E1 E2]. rewrite E1, E2. auto.
-    - destruct (String.eqb name NoOIF); injection E as -> ->; auto. }
+    - destruct (String.eqb name NoOIF); injection E as -> ->; auto.
+    - symmetry in E. apply filter_error_frame in E. destruct E as [E1 E2]. rewrite E1, E2. auto. }
   destruct (match fk with
             | FNotFound => if String.eqb name NoOIF then (EDefault, w1) else (EIfaceNotPresent, w1)
             | _ => filter_error p name w1
